@@ -885,5 +885,593 @@ theorem parseThrows_np (buf : Array Nat) (n : Nat) (hn : n ≤ buf.size) (fuel :
   exact fieldsLoop_np buf n hn fuel _ _ [] (by omega) hs.next hg
 
 
+/-! ### services -/
+
+theorem functionLoop_np (buf : Array Nat) (n : Nat) (hn : n ≤ buf.size) (fuel : Nat) : ∀ (t : T) (f : Function),
+    treeSize t < fuel → Safe ids.rPegText n t → All Good t → NP (functionLoop ids buf fuel f t) := by
+  intro t
+  induction t with
+  | nil => intro f _ _ _; simp [functionLoop]
+  | node r b e up next _ ih =>
+    intro f hsz hs hg
+    simp only [treeSize] at hsz
+    have ihn := fun f' => ih f' (by omega) hs.next hg.tail
+    have hgood := hg.head
+    rw [functionLoop.eq_def]
+    simp only []
+    split
+    · rename_i h; subst h
+      np_match (parseReservedComments_good buf n hn _ b e up next hs.up hgood (.inl rfl))
+      exact ihn _
+    split
+    · exact ihn _
+    split
+    · rename_i h; subst h
+      have hk := hgood.kids (by decide)
+      change Kids G NUL (.alt (.call ids.rVOID) (.call ids.rFieldType)) b e up at hk
+      cases hk with
+      | altL hk =>
+        obtain ⟨u, rfl, _⟩ := kids_call_span hgood.1 hk
+        simp
+        exact ihn _
+      | altR hk =>
+        obtain ⟨u, rfl, hku⟩ := kids_call_span hgood.1 hk
+        simp only [treeSize] at hsz
+        simp
+        np_match ((fieldType_np buf n hn fuel).1 b e u .nil (by omega) hs.up.up hku)
+        exact ihn _
+    split
+    · np_match (pegText_np buf hn hs)
+      exact ihn _
+    split
+    · rename_i h; subst h
+      np_match (parseField_np buf n hn fuel b e up next (by omega) hs.up (hgood.kids (by decide)))
+      exact ihn _
+    split
+    · rename_i h; subst h
+      np_match (parseThrows_np buf n hn fuel b e up next (by omega) hs.up (hgood.kids (by decide)))
+      exact ihn _
+    split
+    · rename_i h; subst h
+      np_match (parseAnnotations_np buf n hn b e up next hs.up (hgood.kids (by decide)))
+      exact ihn _
+    · exact ihn _
+
+theorem parseFunction_np (buf : Array Nat) (n : Nat) (hn : n ≤ buf.size) (fuel : Nat) (b e : Nat) (up next : T)
+    (hsz : treeSize up < fuel) (hs : Safe ids.rPegText n up) (hk : Kids G NUL (ruleBody ids.rFunction) b e up) :
+    NP (parseFunction ids buf fuel (.node ids.rFunction b e up next)) := by
+  have := functionLoop_np buf n hn fuel up emptyFunction hsz hs (kids_all_good hk)
+  simpa [parseFunction, checkrule, rule?, up?] using this
+
+theorem functionsLoop_np (buf : Array Nat) (n : Nat) (hn : n ≤ buf.size) (fuel : Nat) : ∀ (t : T) (acc : List Function),
+    treeSize t < fuel → Safe ids.rPegText n t → All Good t → NP (functionsLoop ids buf fuel acc t) := by
+  intro t
+  induction t with
+  | nil => intro acc _ _ _; simp [functionsLoop]
+  | node r b e up next _ ihn =>
+    intro acc hsz hs hg
+    simp only [treeSize] at hsz
+    rw [functionsLoop.eq_def]
+    simp only []
+    split
+    · rename_i h; subst h
+      np_match (parseFunction_np buf n hn fuel b e up next (by omega) hs.up (hg.head.kids (by decide)))
+      exact ihn _ (by omega) hs.next hg.tail
+    · exact ihn _ (by omega) hs.next hg.tail
+
+theorem parseService_np (buf : Array Nat) (n : Nat) (hn : n ≤ buf.size) (fuel : Nat) (cm : Bytes)
+    (b e : Nat) (up next : T) (hsz : treeSize up < fuel) (hs : Safe ids.rPegText n up)
+    (hk : Kids G NUL (ruleBody ids.rService) b e up) :
+    NP (parseService ids buf fuel cm (.node ids.rService b e up next)) := by
+  change Kids G NUL (.seq (.call R.SERVICE) (.seq (.call ids.rIdentifier) (.seq (.opt (.seq (.call ids.rEXTENDS) (.call ids.rIdentifier)))
+    (.seq (.call R.LWING) (.seq (.star (.call ids.rFunction)) (.call R.RWING)))))) b e up at hk
+  cases hk with | seq h1 hk =>
+  cases hk with | seq h2 hk =>
+  cases hk with | seq hext hk =>
+  cases hk with | seq h4 hk =>
+  obtain ⟨u1, rfl, _, _⟩ := kids_call (by decide) h1
+  obtain ⟨u2, rfl, _, _⟩ := kids_call (by decide) h2
+  obtain ⟨u4, rfl, hlt4, hk4⟩ := kids_call (by decide) h4
+  have hg := kids_all_good hk
+  cases hext with
+  | optNil =>
+    simp only [T.append, treeSize] at hs hsz ⊢
+    simp [parseService, checkrule, rule?, up?, next?, R.LWING]
+    refine NP_bind (pegText_np buf hn hs.next) (fun _ _ => ?_)
+    exact NP_bind (functionsLoop_np buf n hn fuel _ [] (by omega) hs.next.next.next hg) (fun _ _ => by simp)
+  | optSome hext =>
+    cases hext with | seq h5 h6 =>
+    obtain ⟨u5, rfl, _, _⟩ := kids_call (by decide) h5
+    obtain ⟨u6, rfl, _, _⟩ := kids_call (by decide) h6
+    simp only [T.append, treeSize] at hs hsz ⊢
+    simp [parseService, checkrule, rule?, up?, next?, W_bind_assoc]
+    refine NP_bind (pegText_np buf hn hs.next) (fun _ _ => ?_)
+    refine NP_bind (pegText_np buf hn hs.next.next) (fun _ _ => ?_)
+    have hall := All.node (P := Good) (r := R.LWING) (up := u4) ⟨hlt4, fun _ => hk4⟩ hg
+    exact NP_bind (functionsLoop_np buf n hn fuel _ [] (by simp only [treeSize]; omega) hs.next.next.next.next hall) (fun _ _ => by simp)
+
+
+/-! ### enums -/
+
+theorem append_assoc (a b c : T) : (a.append b).append c = a.append (b.append c) := by
+  induction a with
+  | nil => rfl
+  | node r b0 e0 up next _ ih => simp [T.append, ih]
+
+/-- the sibling chain parseEnum's loop walks: it ends with the closing brace, every other node conforms to its rule,
+an EQUAL is followed by an IntConstant -/
+inductive EnumChain : T → Prop
+  | last {b e up} : EnumChain (.node R.RWING b e up .nil)
+  | eq {b e up bi ei ui rest} : EnumChain (.node ids.rIntConstant bi ei ui rest) →
+      EnumChain (.node ids.rEQUAL b e up (.node ids.rIntConstant bi ei ui rest))
+  | other {r b e up next} : r ≠ R.RWING → r ≠ ids.rEQUAL → Good r b e up → EnumChain next →
+      EnumChain (.node r b e up next)
+
+theorem EnumChain.call {r lo hi : Nat} {t tail : T} (hr1 : r ≠ R.RWING) (hr : r ≠ ids.rEQUAL) (h : Kids G NUL (.call r) lo hi t)
+    (ht : EnumChain tail) : EnumChain (t.append tail) := by
+  rcases kids_call_opt h with ⟨rfl, _⟩ | ⟨up, rfl, hlt, hk⟩
+  · exact ht
+  · exact .other hr1 hr ⟨hlt, fun _ => hk⟩ ht
+
+theorem EnumChain.optCall {r lo hi : Nat} {t tail : T} (hr1 : r ≠ R.RWING) (hr : r ≠ ids.rEQUAL)
+    (h : Kids G NUL (.opt (.call r)) lo hi t) (ht : EnumChain tail) : EnumChain (t.append tail) := by
+  cases h with
+  | optNil => exact ht
+  | optSome h => exact EnumChain.call hr1 hr h ht
+
+theorem EnumChain.optEq {lo hi : Nat} {t tail : T}
+    (h : Kids G NUL (.opt (.seq (.call ids.rEQUAL) (.call ids.rIntConstant))) lo hi t)
+    (ht : EnumChain tail) : EnumChain (t.append tail) := by
+  cases h with
+  | optNil => exact ht
+  | optSome h =>
+    cases h with
+    | seq h1 h2 =>
+      obtain ⟨u1, rfl, _, _⟩ := kids_call (by decide) h1
+      obtain ⟨u2, rfl, hlt2, hk2⟩ := kids_call (by decide) h2
+      simp only [T.append]
+      exact .eq (.other (by decide) (by decide) ⟨hlt2, fun _ => hk2⟩ ht)
+
+abbrev enumItem : Expr :=
+  .seq (.call ids.rReservedComments) (.seq (.call ids.rIdentifier) (.seq (.opt (.seq (.call ids.rEQUAL) (.call ids.rIntConstant)))
+    (.seq (.opt (.call ids.rAnnotations)) (.seq (.opt (.call ids.rListSeparator)) (.seq (.call ids.rReservedEndLineComments) (.call ids.rSkipLine))))))
+
+theorem EnumChain.items {lo hi : Nat} {t tail : T} (h : Kids G NUL (.star enumItem) lo hi t) (ht : EnumChain tail) :
+    EnumChain (t.append tail) := by
+  generalize he : Expr.star enumItem = ex at h
+  induction h with
+  | starNil => exact ht
+  | starCons h1 _ _ ih2 =>
+    injection he with he'
+    subst he'
+    have ih := ih2 rfl
+    cases h1 with | seq h1 hk =>
+    cases hk with | seq h2 hk =>
+    cases hk with | seq h3 hk =>
+    cases hk with | seq h4 hk =>
+    cases hk with | seq h5 hk =>
+    cases hk with | seq h6 h7 =>
+    simp only [append_assoc]
+    exact EnumChain.call (by decide) (by decide) h1 (EnumChain.call (by decide) (by decide) h2 (EnumChain.optEq h3
+      (EnumChain.optCall (by decide) (by decide) h4 (EnumChain.optCall (by decide) (by decide) h5
+      (EnumChain.call (by decide) (by decide) h6 (EnumChain.call (by decide) (by decide) h7 ih))))))
+  | _ => cases he
+
+theorem EnumChain.tail {r b e : Nat} {up next : T} (h : EnumChain (.node r b e up next)) (hr : r ≠ R.RWING) : EnumChain next := by
+  cases h with
+  | last => exact absurd rfl hr
+  | eq h => exact h
+  | other _ _ _ h => exact h
+
+theorem EnumChain.exists_node {t : T} (h : EnumChain t) : ∃ r b e up next, t = .node r b e up next := by
+  cases h <;> exact ⟨_, _, _, _, _, rfl⟩
+
+theorem EnumChain.good {r b e : Nat} {up next : T} (h : EnumChain (.node r b e up next)) (hr : r ≠ R.RWING) (hr2 : r ≠ ids.rEQUAL) :
+    Good r b e up := by
+  cases h with
+  | last => exact absurd rfl hr
+  | eq h => exact absurd rfl hr2
+  | other _ _ hg _ => exact hg
+
+theorem peekNext_ok {r b e : Nat} {up next : T} (h : EnumChain (.node r b e up next)) (hr : r ≠ R.RWING) :
+    ∃ r2 b2 e2 u2 rest, next = .node r2 b2 e2 u2 rest ∧ peekNext (.node r b e up next) = .ok (r2, next) := by
+  obtain ⟨r2, b2, e2, u2, rest, rfl⟩ := (h.tail hr).exists_node
+  exact ⟨r2, b2, e2, u2, rest, rfl, by simp [peekNext, next?, rule?]⟩
+
+/-- total-correctness style triple for the W monad: no panic / crash, and the result satisfies `Q` -/
+def Post {α} (x : W α) (Q : α → Prop) : Prop := NP x ∧ ∀ a, x = .ok a → Q a
+
+theorem Post.bind {α β} {x : W α} {f : α → W β} {Q : α → Prop} {R : β → Prop}
+    (hx : Post x Q) (hf : ∀ a, Q a → Post (f a) R) : Post (x >>= f) R := by
+  cases x with
+  | ok a => simpa using hf a (hx.2 a rfl)
+  | err => exact ⟨by simp, fun _ h => by simp at h⟩
+  | panic => exact absurd rfl hx.1.1
+  | crash => exact absurd rfl hx.1.2
+
+theorem Post.pure {α} {a : α} {Q : α → Prop} (h : Q a) : Post (pure a : W α) Q :=
+  ⟨by simp, fun b hb => by simp at hb; exact hb ▸ h⟩
+
+theorem Post.ok {α} {a : α} {Q : α → Prop} (h : Q a) : Post (W.ok a) Q := Post.pure h
+
+theorem Post.of_np {α} {x : W α} (h : NP x) : Post x (fun _ => True) := ⟨h, fun _ _ => trivial⟩
+
+theorem Post.np {α} {x : W α} {Q : α → Prop} (h : Post x Q) : NP x := h.1
+
+/-- cursor of the enum loop: a non-brace node of an enum chain -/
+structure Cur (n L : Nat) (t : T) : Prop where
+  chain : EnumChain t
+  notR : ¬ isRule t R.RWING = true
+  safe : Safe ids.rPegText n t
+  len : chainLen t ≤ L
+
+theorem Cur.node {n L : Nat} {t : T} (h : Cur n L t) : ∃ r b e up next, t = .node r b e up next ∧ r ≠ R.RWING := by
+  obtain ⟨r, b, e, up, next, rfl⟩ := h.chain.exists_node
+  refine ⟨r, b, e, up, next, rfl, ?_⟩
+  intro hr; apply h.notR; simp [isRule, hr]
+
+/-- `peekNext` at a cursor: the next node exists, is an enum chain, one shorter -/
+theorem peekNext_post {n L : Nat} {t : T} (h : Cur n L t) :
+    Post (peekNext t) (fun p => isRule p.2 p.1 = true ∧ EnumChain p.2 ∧ Safe ids.rPegText n p.2 ∧ chainLen p.2 + 1 ≤ L) := by
+  obtain ⟨r, b, e, up, next, rfl, hr⟩ := h.node
+  obtain ⟨r2, b2, e2, u2, rest, rfl⟩ := (h.chain.tail hr).exists_node
+  have hl := h.len
+  simp only [chainLen] at hl
+  simp only [peekNext, next?, rule?, bind_ok, pure_eq]
+  exact Post.ok ⟨by simp [isRule], h.chain.tail hr, h.safe.next, by simp only [chainLen]; omega⟩
+
+theorem cur_of_rule {n L : Nat} {t : T} {x : Nat} (hx : x ≠ R.RWING) (h1 : isRule t x = true) (h2 : EnumChain t)
+    (h3 : Safe ids.rPegText n t) (h4 : chainLen t ≤ L) : Cur n L t := by
+  refine ⟨h2, ?_, h3, h4⟩
+  cases t with
+  | nil => simp [isRule]
+  | node r b e up next =>
+    simp only [isRule, decide_eq_true_eq] at h1 ⊢
+    omega
+
+theorem EnumChain.eq_inv {b e : Nat} {up next : T} (h : EnumChain (.node ids.rEQUAL b e up next)) :
+    ∃ bi ei ui rest, next = .node ids.rIntConstant bi ei ui rest ∧ EnumChain next := by
+  cases h with
+  | eq h => exact ⟨_, _, _, _, rfl, h⟩
+  | other _ hr _ _ => exact absurd rfl hr
+
+theorem isRule_node {t : T} {x : Nat} (h : isRule t x = true) : ∃ b e up next, t = .node x b e up next := by
+  cases t with
+  | nil => simp [isRule] at h
+  | node r b e up next => simp only [isRule, decide_eq_true_eq] at h; subst h; exact ⟨_, _, _, _, rfl⟩
+
+theorem enumValueAt_post (buf : Array Nat) (n : Nat) (hn : n ≤ buf.size) {L : Nat} (values : List EnumValue) (vc : Bytes)
+    {t : T} (h : Cur n L t) :
+    Post (enumValueAt ids buf values vc t) (fun p => Cur n L p.2) := by
+  unfold enumValueAt
+  refine Post.bind (Post.of_np (pegText_np buf hn h.safe)) (fun name _ => ?_)
+  refine Post.bind (peekNext_post h) (fun p hp => ?_)
+  obtain ⟨r1, nx⟩ := p
+  obtain ⟨hp1, hp2, hp3, hp4⟩ := hp
+  dsimp only at hp1 hp2 hp3 hp4 ⊢
+  refine Post.bind (Q := fun q => Cur n L q.2) ?_ (fun q hq => ?_)
+  · split
+    · rename_i hr1
+      subst hr1
+      obtain ⟨b, e, up, next, rfl⟩ := isRule_node hp1
+      obtain ⟨bi, ei, ui, rest, rfl, hch⟩ := hp2.eq_inv
+      simp only [next?, bind_ok]
+      refine Post.bind (Post.of_np (pegText_np buf hn hp3.next)) (fun s _ => ?_)
+      refine Post.pure ?_
+      simp only [chainLen] at hp4
+      exact cur_of_rule (x := ids.rIntConstant) (by decide) (by simp [isRule]) hch hp3.next (by simp only [chainLen]; omega)
+    · exact Post.pure h
+  obtain ⟨value, c1⟩ := q
+  dsimp only at hq ⊢
+  refine Post.bind (peekNext_post hq) (fun p hp => ?_)
+  obtain ⟨r2, nx2⟩ := p
+  obtain ⟨hp1, hp2, hp3, hp4⟩ := hp
+  dsimp only at hp1 hp2 hp3 hp4 ⊢
+  refine Post.bind (Q := fun q => Cur n L q.2) ?_ (fun q hq2 => ?_)
+  · split
+    · rename_i hr2
+      subst hr2
+      obtain ⟨b, e, up, next, rfl⟩ := isRule_node hp1
+      have hg := hp2.good (by decide) (by decide)
+      refine Post.bind (Post.of_np (parseAnnotations_np buf n hn b e up next hp3.up (hg.kids (by decide)))) (fun a _ => ?_)
+      refine Post.pure ?_
+      dsimp only
+      exact cur_of_rule (x := ids.rAnnotations) (by decide) hp1 hp2 hp3 (by omega)
+    · exact Post.pure hq
+  obtain ⟨anns, c2⟩ := q
+  dsimp only at hq2 ⊢
+  refine Post.bind (peekNext_post hq2) (fun p hp => ?_)
+  obtain ⟨r3, nx3⟩ := p
+  obtain ⟨hp1, hp2, hp3, hp4⟩ := hp
+  dsimp only at hp1 hp2 hp3 hp4 ⊢
+  have hc3 : Cur n L (if r3 = ids.rListSeparator then nx3 else c2) := by
+    split
+    · rename_i hr3; subst hr3
+      exact cur_of_rule (x := ids.rListSeparator) (by decide) hp1 hp2 hp3 (by omega)
+    · exact hq2
+  refine Post.bind (peekNext_post hc3) (fun p hp => ?_)
+  obtain ⟨r4, nx4⟩ := p
+  obtain ⟨hp1, hp2, hp3, hp4⟩ := hp
+  dsimp only at hp1 hp2 hp3 hp4 ⊢
+  split
+  · rename_i hr4
+    obtain ⟨hr4, _⟩ := hr4
+    subst hr4
+    obtain ⟨b, e, up, next, rfl⟩ := isRule_node hp1
+    have hg := hp2.good (by decide) (by decide)
+    refine Post.bind (Post.of_np (parseReservedComments_good buf n hn _ b e up next hp3.up hg (.inr rfl))) (fun c _ => ?_)
+    refine Post.pure ?_
+    dsimp only
+    exact cur_of_rule (x := ids.rReservedEndLineComments) (by decide) hp1 hp2 hp3 (by omega)
+  · exact Post.pure hc3
+
+theorem EnumChain.tail_or_nil {r b e : Nat} {up next : T} (h : EnumChain (.node r b e up next)) :
+    next = .nil ∨ EnumChain next := by
+  cases h with
+  | last => exact .inl rfl
+  | eq h => exact .inr h
+  | other _ _ _ h => exact .inr h
+
+theorem enumLoop_np (buf : Array Nat) (n : Nat) (hn : n ≤ buf.size) : ∀ (fuel : Nat) (t : T) (values : List EnumValue),
+    (t = .nil ∨ EnumChain t) → Safe ids.rPegText n t → chainLen t < fuel → NP (enumLoop ids buf fuel values t) := by
+  intro fuel
+  induction fuel with
+  | zero => intro t values _ _ h; omega
+  | succ fuel ih =>
+    intro t values ht hs hlen
+    rcases ht with rfl | hch
+    · simp [enumLoop]
+    obtain ⟨r, b, e, up, next, rfl⟩ := hch.exists_node
+    simp only [chainLen] at hlen
+    rw [enumLoop.eq_def]
+    simp only [rule?, bind_ok]
+    -- step 1: an optional ReservedComments node
+    refine Post.np (Q := fun _ => True) ?_
+    refine Post.bind (Q := fun (q : Bytes × T) => EnumChain q.2 ∧ Safe ids.rPegText n q.2 ∧ chainLen q.2 ≤ chainLen next + 1) ?_ (fun q hq => ?_)
+    · split
+      · rename_i hr; subst hr
+        have hg := hch.good (by decide) (by decide)
+        refine Post.bind (Post.of_np (parseReservedComments_good buf n hn _ b e up next hs.up hg (.inl rfl))) (fun c _ => ?_)
+        simp only [next?, bind_ok]
+        refine Post.pure ⟨hch.tail (by decide), hs.next, by dsimp only; omega⟩
+      · exact Post.pure ⟨hch, hs, by simp only [chainLen]; omega⟩
+    obtain ⟨vc, c⟩ := q
+    obtain ⟨hc1, hc2, hc3⟩ := hq
+    dsimp only at hc1 hc2 hc3 ⊢
+    obtain ⟨r', b', e', up', next', rfl⟩ := hc1.exists_node
+    simp only [chainLen] at hc3
+    simp only [rule?, bind_ok]
+    split
+    · rename_i hr'; subst hr'
+      have hcur : Cur n (chainLen next' + 1) (.node ids.rIdentifier b' e' up' next') :=
+        cur_of_rule (x := ids.rIdentifier) (by decide) (by simp [isRule]) hc1 hc2 (by simp only [chainLen]; omega)
+      refine Post.bind (enumValueAt_post buf n hn values vc hcur) (fun p hp => ?_)
+      obtain ⟨v, c'⟩ := p
+      dsimp only at hp ⊢
+      obtain ⟨r2, b2, e2, u2, nx2, rfl, hr2⟩ := hp.node
+      have hl := hp.len
+      simp only [chainLen] at hl
+      simp only [next?, bind_ok]
+      exact Post.of_np (ih nx2 _ (hp.chain.tail_or_nil) hp.safe.next (by omega))
+    · simp only [next?, bind_ok]
+      exact Post.of_np (ih next' _ (hc1.tail_or_nil) hc2.next (by omega))
+
+theorem parseEnum_np (buf : Array Nat) (n : Nat) (hn : n ≤ buf.size) (cm : Bytes)
+    (b e : Nat) (up next : T) (hs : Safe ids.rPegText n up) (hk : Kids G NUL (ruleBody ids.rEnum) b e up) :
+    NP (parseEnum ids buf cm (.node ids.rEnum b e up next)) := by
+  change Kids G NUL (.seq (.call R.ENUM) (.seq (.call ids.rIdentifier) (.seq (.call R.LWING) (.seq (.star enumItem) (.call R.RWING))))) b e up at hk
+  cases hk with | seq h1 hk =>
+  cases hk with | seq h2 hk =>
+  cases hk with | seq h3 hk =>
+  cases hk with | seq h4 h5 =>
+  obtain ⟨u1, rfl, _, _⟩ := kids_call (by decide) h1
+  obtain ⟨u2, rfl, _, _⟩ := kids_call (by decide) h2
+  obtain ⟨u3, rfl, _, _⟩ := kids_call (by decide) h3
+  obtain ⟨u5, rfl, _, _⟩ := kids_call (by decide) h5
+  simp only [T.append] at hs ⊢
+  simp [parseEnum, checkrule, rule?, up?, next?]
+  refine NP_bind (pegText_np buf hn hs.next) (fun _ _ => ?_)
+  exact NP_bind (enumLoop_np buf n hn _ _ [] (.inr (EnumChain.items h4 .last)) hs.next.next.next (by omega)) (fun _ _ => by simp)
+
+
+/-! ### definitions, documents -/
+
+abbrev defAlts : Expr :=
+  .alt (.call ids.rConst) (.alt (.call ids.rTypedef) (.alt (.call ids.rEnum) (.alt (.call ids.rService)
+    (.alt (.call ids.rStruct) (.alt (.call ids.rUnion) (.call ids.rException))))))
+
+/-- the dispatch of parseDefinition on the definition node itself -/
+theorem defDispatch_np (buf : Array Nat) (n : Nat) (hn : n ≤ buf.size) (fuel : Nat) {lo hi : Nat} {t : T}
+    (h : Kids G NUL defAlts lo hi t) (hsz : treeSize t < fuel) (hs : Safe ids.rPegText n t) :
+    ∃ r b e up, t = .node r b e up .nil ∧ r ≠ ids.rReservedComments ∧ r ≠ ids.rSkip ∧ ∀ (cm : Bytes) (tl : T), NP
+      (if r = ids.rConst then do pure (Def.const (← parseConst ids buf fuel cm (.node r b e up tl)))
+        else if r = ids.rTypedef then do pure (Def.typedef (← parseTypedef ids buf fuel cm (.node r b e up tl)))
+        else if r = ids.rEnum then do pure (Def.enum (← parseEnum ids buf cm (.node r b e up tl)))
+        else if r = ids.rUnion then do pure (Def.slike (← parseStructLike ids buf fuel 1 ids.rUnion cm (.node r b e up tl)))
+        else if r = ids.rStruct then do pure (Def.slike (← parseStructLike ids buf fuel 0 ids.rStruct cm (.node r b e up tl)))
+        else if r = ids.rException then do pure (Def.slike (← parseException ids buf fuel cm (.node r b e up tl)))
+        else if r = ids.rService then do pure (Def.service (← parseService ids buf fuel cm (.node r b e up tl)))
+        else .err : W Def) := by
+  cases h with
+  | altL h =>
+    obtain ⟨u, rfl, _, hk⟩ := kids_call (by decide) h
+    simp only [treeSize] at hsz
+    refine ⟨_, _, _, _, rfl, by decide, by decide, fun cm tl => ?_⟩
+    simp
+    exact NP_bind (parseConst_np buf n hn fuel cm _ _ u tl (by omega) hs.up hk) (fun _ _ => by simp)
+  | altR h =>
+  cases h with
+  | altL h =>
+    obtain ⟨u, rfl, _, hk⟩ := kids_call (by decide) h
+    simp only [treeSize] at hsz
+    refine ⟨_, _, _, _, rfl, by decide, by decide, fun cm tl => ?_⟩
+    simp
+    exact NP_bind (parseTypedef_np buf n hn fuel cm _ _ u tl (by omega) hs.up hk) (fun _ _ => by simp)
+  | altR h =>
+  cases h with
+  | altL h =>
+    obtain ⟨u, rfl, _, hk⟩ := kids_call (by decide) h
+    refine ⟨_, _, _, _, rfl, by decide, by decide, fun cm tl => ?_⟩
+    simp
+    exact NP_bind (parseEnum_np buf n hn cm _ _ u tl hs.up hk) (fun _ _ => by simp)
+  | altR h =>
+  cases h with
+  | altL h =>
+    obtain ⟨u, rfl, _, hk⟩ := kids_call (by decide) h
+    simp only [treeSize] at hsz
+    refine ⟨_, _, _, _, rfl, by decide, by decide, fun cm tl => ?_⟩
+    simp
+    exact NP_bind (parseService_np buf n hn fuel cm _ _ u tl (by omega) hs.up hk) (fun _ _ => by simp)
+  | altR h =>
+  cases h with
+  | altL h =>
+    obtain ⟨u, rfl, _, hk⟩ := kids_call (by decide) h
+    simp only [treeSize] at hsz
+    refine ⟨_, _, _, _, rfl, by decide, by decide, fun cm tl => ?_⟩
+    simp
+    exact NP_bind (parseStructLike_np buf n hn fuel 0 ids.rStruct R.STRUCT cm _ _ u tl (by decide) (by omega) hs.up hk) (fun _ _ => by simp)
+  | altR h =>
+  cases h with
+  | altL h =>
+    obtain ⟨u, rfl, _, hk⟩ := kids_call (by decide) h
+    simp only [treeSize] at hsz
+    refine ⟨_, _, _, _, rfl, by decide, by decide, fun cm tl => ?_⟩
+    simp
+    exact NP_bind (parseStructLike_np buf n hn fuel 1 ids.rUnion R.UNION cm _ _ u tl (by decide) (by omega) hs.up hk) (fun _ _ => by simp)
+  | altR h =>
+    obtain ⟨u, rfl, _, hk⟩ := kids_call (by decide) h
+    simp only [treeSize] at hsz
+    refine ⟨_, _, _, _, rfl, by decide, by decide, fun cm tl => ?_⟩
+    simp
+    exact NP_bind (parseException_np buf n hn fuel cm _ _ u tl (by omega) hs.up hk) (fun _ _ => by simp)
+
+theorem parseDefinition_np (buf : Array Nat) (n : Nat) (hn : n ≤ buf.size) (fuel : Nat) (t : Thrift) (b e : Nat) (up next : T)
+    (hsz : treeSize up < fuel) (hs : Safe ids.rPegText n up) (hk : Kids G NUL (ruleBody ids.rDefinition) b e up) :
+    NP (parseDefinition ids buf fuel t (.node ids.rDefinition b e up next)) := by
+  change Kids G NUL (.seq (.call ids.rReservedComments) (.seq (.call ids.rSkip) (.seq defAlts (.seq (.opt (.call ids.rAnnotations))
+    (.call ids.rSkipLine))))) b e up at hk
+  cases hk with | @seq _ _ _ _ _ tR _ h1 hk =>
+  cases hk with | @seq _ _ _ _ _ tK _ h2 hk =>
+  cases hk with | @seq _ _ _ _ _ tD _ h3 hk =>
+  cases hk with | @seq _ _ _ _ _ tA tS h4 h5 =>
+  -- the tail after the definition node: optional annotations, optional SkipLine
+  have htail : ∀ (d : Def), Safe ids.rPegText n (tA.append tS) →
+      NP (if isRule (tA.append tS) ids.rAnnotations = true then do
+            let a ← parseAnnotations ids buf (tA.append tS)
+            pure (addDef t (some a) d)
+          else pure (addDef t none d) : W Thrift) := by
+    intro d hsT
+    cases h4 with
+    | optNil =>
+      rcases kids_call_opt h5 with ⟨rfl, _⟩ | ⟨u, rfl, _, _⟩ <;> simp [T.append, isRule]
+    | optSome h4 =>
+      obtain ⟨u, rfl, _, hku⟩ := kids_call (by decide) h4
+      simp only [T.append] at hsT ⊢
+      simp only [isRule, decide_true, if_true]
+      exact NP_bind (parseAnnotations_np buf n hn _ _ u _ hsT.up hku) (fun _ _ => by simp)
+  have hsD : Safe ids.rPegText n tD := Safe.of_append_left (Safe.of_append_right (Safe.of_append_right hs))
+  have hszD : treeSize tD < fuel := by
+    simp only [treeSize_append] at hsz; omega
+  have hsT : Safe ids.rPegText n (tA.append tS) := Safe.of_append_right (Safe.of_append_right (Safe.of_append_right hs))
+  obtain ⟨rD, bD, eD, uD, rfl, hne1, hne2, hdisp⟩ := defDispatch_np buf n hn fuel h3 hszD hsD
+  have hne1' : ¬ rD = 42 := hne1
+  have hne2' : ¬ rD = 44 := hne2
+  rcases kids_call_opt h1 with ⟨rfl, _⟩ | ⟨u1, rfl, hlt1, hk1⟩
+  · rcases kids_call_opt h2 with ⟨rfl, _⟩ | ⟨u2, rfl, _, _⟩
+    · simp only [T.append] at hs ⊢
+      simp [parseDefinition, checkrule, rule?, up?, next?, W_bind_assoc, hne1', hne2']
+      exact NP_bind (hdisp _ _) (fun d _ => htail d hsT)
+    · simp only [T.append] at hs ⊢
+      simp [parseDefinition, checkrule, rule?, up?, next?, W_bind_assoc, hne1', hne2']
+      exact NP_bind (hdisp _ _) (fun d _ => htail d hsT)
+  · have hrc : ∀ nx, NP (parseReservedComments ids buf (.node ids.rReservedComments _ _ u1 nx) ids.rReservedComments) :=
+      fun nx => parseReservedComments_np buf n hn _ ids.rSkip _ _ u1 nx (Safe.of_append_left hs).up hlt1 hk1
+    rcases kids_call_opt h2 with ⟨rfl, _⟩ | ⟨u2, rfl, _, _⟩
+    · simp only [T.append] at hs ⊢
+      simp [parseDefinition, checkrule, rule?, up?, next?, W_bind_assoc, hne1', hne2']
+      exact NP_bind (hrc _) (fun c _ => NP_bind (hdisp _ _) (fun d _ => htail d hsT))
+    · simp only [T.append] at hs ⊢
+      simp [parseDefinition, checkrule, rule?, up?, next?, W_bind_assoc, hne1', hne2']
+      exact NP_bind (hrc _) (fun c _ => NP_bind (hdisp _ _) (fun d _ => htail d hsT))
+
+theorem docLoop_np (buf : Array Nat) (n : Nat) (hn : n ≤ buf.size) (fuel : Nat) : ∀ (t : T) (acc : Thrift),
+    treeSize t < fuel → Safe ids.rPegText n t → All Good t → NP (docLoop ids buf fuel acc t) := by
+  intro t
+  induction t with
+  | nil => intro acc _ _ _; simp [docLoop]
+  | node r b e up next _ ihn =>
+    intro acc hsz hs hg
+    simp only [treeSize] at hsz
+    have ih := fun acc' => ihn acc' (by omega) hs.next hg.tail
+    rw [docLoop.eq_def]
+    simp only []
+    split
+    · exact ih _
+    split
+    · rename_i h; subst h
+      np_match (parseHeader_np buf n hn acc b e up next hs.up (hg.head.kids (by decide)))
+      exact ih _
+    split
+    · rename_i h; subst h
+      np_match (parseDefinition_np buf n hn fuel acc b e up next (by omega) hs.up (hg.head.kids (by decide)))
+      exact ih _
+    · simp
+
+/-- `(*parser).parse` does not panic on the tree of a document -/
+theorem walk_np (buf : Array Nat) (n : Nat) (hn : n ≤ buf.size) {lo hi : Nat} {root : T}
+    (hk : Kids G NUL (.call ids.rDocument) lo hi root) (hs : Safe ids.rPegText n root) : NP (walk ids buf root) := by
+  rcases kids_call_opt hk with ⟨rfl, _⟩ | ⟨up, rfl, _, hku⟩
+  · simp [walk]
+  · simp only [walk, ids_rDocument, ne_eq, not_true_eq_false, if_false]
+    exact docLoop_np buf n hn _ up {} (by simp only [treeSize]; omega) hs.up (kids_all_good hku)
+
+
+/-! ### the whole pipeline -/
+
+theorem G_pegText : G.pegText = ids.rPegText := by decide
+
 end Walker
 
+namespace C03
+open Peg Walker
+
+theorem parseString_cases (g : Grammar) (ids : Ids) (content : Bytes) :
+    (parseRunes g (Utf8.decode content) = .oof ∧ parseString g ids content = .crash) ∨
+    (parseRunes g (Utf8.decode content) = .fail ∧ parseString g ids content = .parseError) ∨
+    (∃ p' s' t, parseRunes g (Utf8.decode content) = .ok p' s' t ∧
+      parseString g ids content =
+        match walk ids (Utf8.decode content ++ [1114112]).toArray (prune t) with
+        | .ok a => .ok a
+        | .err => .walkError
+        | .panic => .panic
+        | .crash => .crash) := by
+  unfold parseString
+  dsimp only
+  generalize parseRunes g (Utf8.decode content) = res
+  cases res with
+  | oof => exact .inl ⟨rfl, rfl⟩
+  | fail => exact .inr (.inl ⟨rfl, rfl⟩)
+  | ok p' s' t => exact .inr (.inr ⟨p', s', t, rfl, rfl⟩)
+
+/-- decode → match → prune → walk never ends in `panic` or `crash`, given the two decidable grammar checks -/
+theorem parseString_safe (hwf : wf Walker.G Walker.NUL Generated.C03.rank = true)
+    (hcap : capOK Walker.G Walker.NUL Generated.C03.capTab = true) (content : Bytes) :
+    parseString Walker.G Walker.ids content = .parseError ∨ parseString Walker.G Walker.ids content = .walkError ∨
+    ∃ t, parseString Walker.G Walker.ids content = .ok t := by
+  have hw := wf_unpack hwf
+  have hc := capOK_unpack hcap
+  rcases parseString_cases Walker.G Walker.ids content with ⟨hp, _⟩ | ⟨_, h⟩ | ⟨p', s', t, hp, h⟩
+  · exact absurd hp (parseRunes_no_oof hw _)
+  · exact .inl h
+  · have hk := run_kids hw.nulSound _ _ _ _ _ _ _ hp
+    have hs := parse_safe hw hc _ _ _ _ hp
+    have hnp := walk_np ((Utf8.decode content ++ [1114112]).toArray) (Utf8.decode content).length (by simp) hk hs
+    rw [h]
+    generalize walk Walker.ids (Utf8.decode content ++ [1114112]).toArray (prune t) = w at hnp
+    cases w with
+    | ok a => exact .inr (.inr ⟨a, rfl⟩)
+    | err => exact .inr (.inl rfl)
+    | panic => exact absurd rfl hnp.1
+    | crash => exact absurd rfl hnp.2
+
+end C03
